@@ -968,6 +968,12 @@ func (e *executor) prepareExprDependencies(
 		)
 	}
 	for _, dependency := range dependencies {
+		if len(dependency) < 2 {
+			return fmt.Errorf(
+				"expression %s refers to the whole data model; refer to the input, the steps or the workflow",
+				expr.String(),
+			)
+		}
 		dependencyKind := dependency[1]
 		switch dependencyKind {
 		case WorkflowInputKey:
